@@ -155,6 +155,30 @@ def run_job(job, rec):
                       lambda: f"{desc}: d K / d theta[{i}] differs from the numerical derivative by "
                       f"{np.abs(g - num[i]).max() if g.shape == (n, n) else g.shape} (gradient scale {gs:.3e}, tol {tol:.2e})", rec.context)
 
+        # ---- history: the same hyper-parameter array modified in place between calls
+        if c % 2 == 0:
+            th = np.array(theta, dtype=float)
+            cpi = {a for a, _ in cp_positions(spec, n, d, x)} | {a + 1 for a, _ in cp_positions(spec, n, d, x)}
+            free = [i for i in range(npar) if i not in cpi]
+            if free:
+                guarded(K.build_covariance, th)
+                guarded(K.covariance_and_gradients, th)
+                k0 = int(rng.choice(free))
+                th[k0] += float(rng.uniform(0.2, 0.6))
+                B2 = guarded(K.build_covariance, th)
+                KG2 = guarded(K.covariance_and_gradients, th)
+                P2 = guarded(K, x, x, th)
+                ref2 = R.kernel(spec, x, x, th, n)
+                sc2 = max(np.abs(ref2).max(), R.noise_diag(spec, x, th).max(), 1e-300)
+                rec.count("in_place_theta_updates")
+                ok2 = not any(isinstance(v, Raised) for v in (B2, KG2, P2))
+                if ok2:
+                    D2 = np.asarray(B2, float) - ref2 - np.diag(R.noise_diag(spec, x, th))
+                    ok2 = bool(np.abs(D2 - np.diag(np.diag(D2))).max() <= 1e-11 * sc2) and bool(np.all(np.abs(np.diag(D2)) <= 1e-9 * np.abs(np.diag(ref2)) + 1e-11 * sc2)) \
+                        and bool(np.abs(np.asarray(KG2[0], float) - np.asarray(B2, float)).max() <= 1e-12 * sc2) and bool(np.abs(np.asarray(P2, float) - ref2).max() <= 1e-11 * sc2)
+                rec.check(ok2, "stale-after-in-place-update",
+                          lambda: f"{desc}: after hyper-parameter {k0} was changed in place in the same array, the covariance is not the one for the new values", rec.context)
+
         # ---- composites: labels and bounds are the components' concatenated in order
         if spec[0] in ("SUM", "CP"):
             subs = spec[1] if spec[0] == "SUM" else spec[2]
